@@ -36,7 +36,7 @@ ASSUMPTIONS = [
 FLOORS = {"triples_compared": (6000, 100000), "fail_together": (1500, 30000), "succeed_together": (2000, 40000), "warm_triples": (2000, 40000),
           "partial_body_cases": (200, 4000), "validate_keys_body_checks": (6000, 100000),
           "datasetclass_triples": (1000, 20000), "datasetclass_fail_together": (150, 3000),
-          "pipeline_triples": (1000, 20000), "pipeline_fail_together": (50, 1000), "default_body_checks": (1200, 12000), "lazy_coalesce_triples": (96, 96)}
+          "pipeline_triples": (1000, 20000), "pipeline_fail_together": (50, 1000), "default_body_checks": (1200, 12000), "lazy_coalesce_triples": (96, 96), "effects_off_triples": (48, 48)}
 SHARDS_QUICK = 4
 FEATURES = {"domains": False, "allopts": False}
 
@@ -185,6 +185,36 @@ def known_finding_reproducer(ctx):
                               {"mechanism": mech, "options": repr(o), "warm": warm, "mode": mode})
                 if mech is None:
                     return
+
+
+def effects_switched_off(ctx):
+    """An effect that needs an option, with effects switched OFF (per-dataset toggle, or the option switch): the effect
+    is out of the picture for all three operations - with its option absent validate, keys and evaluate all succeed,
+    cold and warm, for the dataset and for a dataset downstream of it."""
+    from labrea import pipeline_step
+
+    @pipeline_step
+    def audit(value, tag=Option("AUDIT.TAG")):
+        return None
+
+    for how in ("toggle", "option", "toggle+option"):
+        for kind in ("memory", "nocache"):
+            base = (dataset.nocache if kind == "nocache" else dataset)(lambda x=Option("X", 1): ("base", x), effects=[audit])
+            report = dataset.nocache(lambda b=base: ("report", b))
+            if "toggle" in how:
+                base.disable_effects()
+            for o in ({}, {"X": 2}, {"X": 2}, {"X": 3, "AUDIT": {"TAG": "t"}}):
+                o2 = dict(o)
+                if "option" in how:
+                    o2["LABREA"] = {"EFFECTS": {"DISABLED": True}}
+                for subject, label in ((base, "dataset"), (report, "downstream dataset")):
+                    res = {op: observe(getattr(subject, op), copy.deepcopy(o2)) for op in ("validate", "keys", "evaluate")}
+                    ctx.evaluations += 3
+                    ctx.count("effects_off_triples")
+                    if any(v[0] != "ok" for v in res.values()):
+                        ctx.violation("operations-disagree", f"effects switched off ({how}), effect option absent, {kind} {label} on {o}: validate {short(res['validate'], 60)} / "
+                                      f"keys {short(res['keys'], 60)} / evaluate {short(res['evaluate'], 60)}", {"family": "effects-off", "how": how, "cache": kind, "options": repr(o2)})
+                        return
 
 
 def coalesce_reproducer(ctx):
@@ -348,6 +378,7 @@ def run(ctx):
         known_finding_reproducer(ctx)
         coalesce_reproducer(ctx)
         lazy_coalesce_members(ctx)
+        effects_switched_off(ctx)
     # (a dict-valued option referenced mid-string is the recorded C09 finding: str(dict) has braces)
     dicts = [d for d in directed.dictionaries() if U.closed(d) and not any(isinstance(d.get(k), dict) for k in ("A", "B", "C"))
              and not any(isinstance(v2, dict) for v in d.values() if isinstance(v, dict) for v2 in v.values())]
@@ -382,7 +413,9 @@ def run(ctx):
 
 def replay(ctx, rep):
     w = rep["witness"]
-    if w.get("family") == "lazy-coalesce":
+    if w.get("family") == "effects-off":
+        effects_switched_off(ctx)
+    elif w.get("family") == "lazy-coalesce":
         lazy_coalesce_members(ctx)
     elif w.get("family") == "default-body":
         ctx.shard, ctx.shards = w.get("shard", 0), w.get("shards", 1)
